@@ -47,7 +47,7 @@ func main() {
 	runner.Main(runner.Config{
 		ID:    "C07",
 		Level: "model_checking",
-		Rule:  "patches x parameters. Byte level: old file 'a' in {\"\",x,xx,xy,P[:5],P[:9],P[:17],P[:40]} (P a fixed aperiodic string over {x,y}; strings starting with y are the x<->y images of enumerated ones) x new file in {every string over {x,y} of length 0..4; for each length 5..16: prefix of old, prefix with one byte edited, old extended, unrelated string} x layout in {same path, renamed a->b, same path plus two fixed companion files m (9->10 bytes) and z (40->33 bytes)}. Block level: an enumerated list of build pairs over 64KiB blocks (identical, one block changed, swapped, grown, shrunk, renamed with shared blocks, two candidate old files, short final block reused by a tiny renamed file, empty and tiny files next to big ones). File sequences: three files per build, each in every relation {unchanged, 1 edit, 2 edits, grown, shrunk, unrelated, emptied} to its old version, all 343 orders, Partitions {0,2,5} x ForceMapAll (the optimizer reuses one bsdiff context for all files of a patch). Parameters: Partitions 0..16 x ForceMapAll {f,t} x RediffSizeLimit {default,1,10 (byte level) | 70000 (block level)} in full product, SuffixSortConcurrency {0,1,-1} x output compression {none,gzip-1,brotli-1,optimizer default} cycling with the ordinal (every pair meets every combination several times); compression of the input patch cycles over {none,gzip-1,brotli-1} per pair. quick runs every pair under every Partitions value with a rotating slice of the six (ForceMapAll, limit) combinations (one per Partitions value; every pair meets all six). Oracle: NewContext/Optimize return nil without panic or process crash, the optimized patch decodes with the independent decoder, applies with a fresh bowl to a tree equal to the new build, and applies in place (overlay bowl on a copy of the old build) to a tree equal to the new build; the original patch is checked the same way once per pair; an optimized patch byte-identical to one already applied and verified for the same pair is not applied again (the patcher is a deterministic function of patch bytes and old build). Non-trivial = the optimized patch contains a bsdiff series with a non-empty Add.",
+		Rule:  "patches x parameters. Byte level: old file 'a' in {\"\",x,xx,xy,P[:5],P[:9],P[:17],P[:40]} (P a fixed aperiodic string over {x,y}; strings starting with y are the x<->y images of enumerated ones) x new file in {every string over {x,y} of length 0..4; for each length 5..16: prefix of old, prefix with one byte edited, old extended, unrelated string} x layout in {same path, renamed a->b, same path plus two fixed companion files m (9->10 bytes) and z (40->33 bytes)}. Block level: an enumerated list of build pairs over 64KiB blocks (identical, one block changed, swapped, grown, shrunk, renamed with shared blocks, two candidate old files, short final block reused by a tiny renamed file, empty and tiny files next to big ones). File sequences: three files per build, each in every relation {unchanged, 1 edit, 2 edits, grown, shrunk, unrelated, emptied} to its old version, all 343 orders, Partitions {0,2,5} x ForceMapAll (the optimizer reuses one bsdiff context for all files of a patch). Parameters: Partitions 0..16 x ForceMapAll {f,t} x RediffSizeLimit {default,1,10 (byte level) | 70000 (block level)} in full product, SuffixSortConcurrency {0,1,-1} x output compression {none,gzip-1,brotli-1,optimizer default} cycling with the ordinal (every pair meets every combination several times); compression of the input patch cycles over {none,gzip-1,brotli-1} per pair. quick runs every pair under every Partitions value with a rotating slice of the six (ForceMapAll, limit) combinations (one per Partitions value; every pair meets all six). Sub-check suffix-sort-concurrency: SuffixSortConcurrency -1..17 x Partitions 0..16 in full product on four pairs. Oracle: NewContext/Optimize return (120 s watchdog) nil without panic or process crash, the optimized patch decodes with the independent decoder, applies with a fresh bowl to a tree equal to the new build, and applies in place (overlay bowl on a copy of the old build) to a tree equal to the new build; the original patch is checked the same way once per pair; an optimized patch byte-identical to one already applied and verified for the same pair is not applied again (the patcher is a deterministic function of patch bytes and old build). Non-trivial = the optimized patch contains a bsdiff series with a non-empty Add.",
 		Assumptions: []string{
 			"new builds with no entries at all are not enumerated (nothing to optimize; reading such a patch back under gzip is the C01 finding in the savior dependency)",
 			"file modes, symlinks and directories are not varied here (C01/C02 own them)",
